@@ -36,6 +36,8 @@ inductive ZLoc where
   | ePub (v id : Nat)
   /-- dequeue, phase 1: `q.consume_movable()` in progress -/
   | dCons
+  /-- dequeue: `q` handed out `id`; at `am.len` (`consume` reports the length after dequeueing), then the payload is read -/
+  | dLen (id : Nat)
   /-- dequeue: value read from slot `id`; at `pa.dealloc.drop` -/
   | dDrop (id v : Nat)
   /-- at `pa.dealloc.free` -/
@@ -90,9 +92,10 @@ def step (s : St) (t : Nat) : St :=
   | .dCons =>
       let q' := Ring.step s.q t
       match q'.thr t with
-      | .done (.got id) => setThr { s with q := Ring.apply q' (.ack t), deqLog := s.deqLog ++ [s.pool id] } t (.dDrop id (s.pool id))
+      | .done (.got id) => setThr { s with q := Ring.apply q' (.ack t) } t (.dLen id)
       | .done .empty => setThr { s with q := Ring.apply q' (.ack t) } t (.done .empty)
       | _ => { s with q := q' }
+  | .dLen id => setThr { s with deqLog := s.deqLog ++ [s.pool id] } t (.dDrop id (s.pool id))
   | .dDrop id v => setThr s t (.dFreeHook id v)
   | .dFreeHook id v => setThr { s with free := Ring.apply s.free (.send t id) } t (.dFree id v)
   | .dFree id v =>
@@ -129,6 +132,7 @@ def tagOf (s : St) (t : Nat) : Option (String × Nat) :=
   match s.thr t with
   | .eAlloc _ | .dFree _ _ => Ring.tagOf (s.free.thr t)
   | .ePub _ _ | .dCons => Ring.tagOf (s.q.thr t)
+  | .dLen _ => some ("am.len", 0)
   | .dDrop id _ => some ("pa.dealloc.drop", id)
   | .dFreeHook id _ => some ("pa.dealloc.free", id)
   | .lLen => some ("am.len", 0)
